@@ -420,6 +420,14 @@ def _inimage_answer(ex, st, post, result):
            "declared as image/<name>, never echoed bare")
     size = mi[0].kwargs.get('size')
     g2 = z3.BoolVal(size is not None)
+    if size is not None:
+        req_size = ex.opaque_field_at(st, mi[0], ex.opaque_field_at(st, mi[0], ex.opaque_field_at(st, mi[0], err, 'request'), 'params'), 'size')
+        s_ = size.val if hasattr(size, 'isnone') else size
+        if hasattr(req_size, 'isnone') and getattr(s_, 'items', None) and len(s_.items) == 2:
+            g2 = z3.And(g2, z3.If(req_size.isnone, z3.And(s_.items[0].t == 256, s_.items[1].t == 256),
+                                  z3.And(s_.items[0].t == req_size.val.items[0].t, s_.items[1].t == req_size.val.items[1].t)))
+        else:
+            g2 = z3.BoolVal(False)
     yield ('error_image_has_a_size', g2, 'the message image is created with the requested size (256x256 when the request has none)')
 
 
